@@ -43,6 +43,8 @@ func draw(t *rapid.T) sim.ChainCase {
 				for i := 0; i < 4; i++ {
 					b.V2Pay()
 				}
+			} else {
+				sim.SameBlockScenarios(g, b)
 			}
 		},
 	})
